@@ -46,7 +46,8 @@ Record st := mkst {
   s_root : addr;                (* t.root: address of the roots array *)
   s_size : Z; s_maxp : nat; s_depth : nat; s_cache : bool;
   s_wr : list addr;             (* t.writable, most recently used first; [] = nil or empty *)
-  s_clock : N }.                (* number of accesses to t.writable so far (index into the eviction schedule) *)
+  s_clock : N;                  (* number of accesses to t.writable so far (index into the eviction schedule) *)
+  s_log : list addr }.          (* GHOST: targets of the in-place writes so far, latest first (read by no operation) *)
 
 Inductive res (A : Type) := Ok (a : A) | Panic | Oof.
 Arguments Ok {A} a. Arguments Panic {A}. Arguments Oof {A}.
@@ -66,13 +67,16 @@ Definition opt_get {A} (o : option A) : M A := match o with Some a => ret a | No
 
 (* ---------- state setters ---------- *)
 Definition set_heap (s : st) (n : PM.t nobj) (a : PM.t (list addr)) (nx : addr) : st :=
-  mkst n a nx (s_root s) (s_size s) (s_maxp s) (s_depth s) (s_cache s) (s_wr s) (s_clock s).
+  mkst n a nx (s_root s) (s_size s) (s_maxp s) (s_depth s) (s_cache s) (s_wr s) (s_clock s) (s_log s).
+(* an in-place write to the object at address t *)
+Definition set_heap_w (s : st) (n : PM.t nobj) (a : PM.t (list addr)) (t : addr) : st :=
+  mkst n a (s_next s) (s_root s) (s_size s) (s_maxp s) (s_depth s) (s_cache s) (s_wr s) (s_clock s) (t :: s_log s).
 Definition set_root_st (s : st) (r : addr) : st :=
-  mkst (s_nodes s) (s_arrs s) (s_next s) r (s_size s) (s_maxp s) (s_depth s) (s_cache s) (s_wr s) (s_clock s).
+  mkst (s_nodes s) (s_arrs s) (s_next s) r (s_size s) (s_maxp s) (s_depth s) (s_cache s) (s_wr s) (s_clock s) (s_log s).
 Definition set_meta (s : st) (sz : Z) (mp d : nat) : st :=
-  mkst (s_nodes s) (s_arrs s) (s_next s) (s_root s) sz mp d (s_cache s) (s_wr s) (s_clock s).
+  mkst (s_nodes s) (s_arrs s) (s_next s) (s_root s) sz mp d (s_cache s) (s_wr s) (s_clock s) (s_log s).
 Definition set_wr (s : st) (w : list addr) (c : N) : st :=
-  mkst (s_nodes s) (s_arrs s) (s_next s) (s_root s) (s_size s) (s_maxp s) (s_depth s) (s_cache s) w c.
+  mkst (s_nodes s) (s_arrs s) (s_next s) (s_root s) (s_size s) (s_maxp s) (s_depth s) (s_cache s) w c (s_log s).
 
 (* ---------- heap primitives ---------- *)
 Definition alloc_node (o : nobj) : M addr := fun s =>
@@ -102,20 +106,20 @@ Fixpoint del_nth {A} (l : list A) (i : nat) : list A :=
 Definition write_slot (a : addr) (i : nat) (v : addr) : M unit := fun s =>
   match PM.find a (s_arrs s) with
   | Some l => if Nat.ltb i (List.length l)
-              then Ok (tt, set_heap s (s_nodes s) (PM.add a (set_nth l i v) (s_arrs s)) (s_next s))
+              then Ok (tt, set_heap_w s (s_nodes s) (PM.add a (set_nth l i v) (s_arrs s)) a)
               else Panic
   | None => Panic
   end.
 (* the contents of the backing array a are rearranged (sort; the in-place shift of truncate) *)
 Definition write_arr (a : addr) (l : list addr) : M unit := fun s =>
   match PM.find a (s_arrs s) with
-  | Some _ => Ok (tt, set_heap s (s_nodes s) (PM.add a l (s_arrs s)) (s_next s))
+  | Some _ => Ok (tt, set_heap_w s (s_nodes s) (PM.add a l (s_arrs s)) a)
   | None => Panic
   end.
 (* n.key = k *)
 Definition set_key (a : addr) (k : bytes) : M unit := fun s =>
   match PM.find a (s_nodes s) with
-  | Some o => Ok (tt, set_heap s (PM.add a {| n_key := k; n_route := n_route o; n_arr := n_arr o |} (s_nodes s)) (s_arrs s) (s_next s))
+  | Some o => Ok (tt, set_heap_w s (PM.add a {| n_key := k; n_route := n_route o; n_arr := n_arr o |} (s_nodes s)) (s_arrs s) a)
   | None => Panic
   end.
 
